@@ -61,6 +61,29 @@ Definition holds_C07 (pre : vt) (f : func) (post : vt) : bool :=
   | None => true
   end.
 
+(** the emitted SGR ops are the grammar's reading of the parameters as written (C03 / C08) *)
+Definition sgr_op_eqb (a b : sgr_op) : bool :=
+  match a, b with
+  | SetForegroundColor c, SetForegroundColor d
+  | SetBackgroundColor c, SetBackgroundColor d => color_eqb c d
+  | Reset, Reset | SetBoldIntensity, SetBoldIntensity
+  | SetFaintIntensity, SetFaintIntensity | SetItalic, SetItalic
+  | SetUnderline, SetUnderline | SetBlink, SetBlink | SetInverse, SetInverse
+  | SetStrikethrough, SetStrikethrough | ResetIntensity, ResetIntensity
+  | ResetItalic, ResetItalic | ResetUnderline, ResetUnderline
+  | ResetBlink, ResetBlink | ResetInverse, ResetInverse
+  | ResetStrikethrough, ResetStrikethrough
+  | ResetForegroundColor, ResetForegroundColor
+  | ResetBackgroundColor, ResetBackgroundColor => true
+  | _, _ => false
+  end.
+
+Definition sgr_decode_ok (ops : list sgr_op) (p : parser) : bool :=
+  list_eqb sgr_op_eqb ops (spec_sgr_params (firstn (S (cur_param p)) (params p))).
+
+Definition holds_C03_sgr (f : func) (post : vt) : bool :=
+  match f with Sgr ops => sgr_decode_ok ops (vparser post) | _ => true end.
+
 (** * C08 *)
 Definition holds_C08 (pre : vt) (f : func) (post : vt) : bool :=
   let t := vterm pre in
@@ -69,22 +92,7 @@ Definition holds_C08 (pre : vt) (f : func) (post : vt) : bool :=
     obs_eqb (observe (tpen (vterm post))) (fold_left spec_sgr_one ops (observe (tpen t)))
     && visible_eqb (t <| tpen := tpen (vterm post) |>) (vterm post)
     (* decoding: the emitted ops are the grammar's reading of the parameters *)
-    && (let p := vparser post in
-        list_eqb (fun a b => match a, b with
-                             | SetForegroundColor c, SetForegroundColor d
-                             | SetBackgroundColor c, SetBackgroundColor d => color_eqb c d
-                             | Reset, Reset | SetBoldIntensity, SetBoldIntensity
-                             | SetFaintIntensity, SetFaintIntensity | SetItalic, SetItalic
-                             | SetUnderline, SetUnderline | SetBlink, SetBlink | SetInverse, SetInverse
-                             | SetStrikethrough, SetStrikethrough | ResetIntensity, ResetIntensity
-                             | ResetItalic, ResetItalic | ResetUnderline, ResetUnderline
-                             | ResetBlink, ResetBlink | ResetInverse, ResetInverse
-                             | ResetStrikethrough, ResetStrikethrough
-                             | ResetForegroundColor, ResetForegroundColor
-                             | ResetBackgroundColor, ResetBackgroundColor => true
-                             | _, _ => false
-                             end)
-                 ops (spec_sgr_params (firstn (S (cur_param p)) (params p))))
+    && sgr_decode_ok ops (vparser post)
   | _ => pen_eqb (tpen t) (tpen (vterm post))
          || match f with Decrc | Scorc | Decrst _ | Decstr | Ris => true | _ => false end
   end.
